@@ -56,7 +56,7 @@ PROPS = {
              {"runs": 14000, "budget_s": 30}, {"runs": 800000, "budget_s": 900},
              must={"all": ["successful-refreshes", "failed-refreshes", "rotations-followed", "refresh-omitted-id-token", "token-reset-after"]}),
     "C13": P("plans = login flows under configurations drawn for URL well-formedness: client ids, scopes, callback and authorization URIs with and without their own query, with reserved, space, "
-             "percent and non-ASCII characters; requested targets likewise; a quarter of the plans are two chains sharing one client registration (client id, secret) at one provider with a redirect URI and scopes of their own; the provider-side strict parser (independent splitter/decoder) judges every Location against the sending filter's redirect URI and scope set; return Location compared byte for byte; "
+             "percent and non-ASCII characters; requested targets likewise; a quarter of the plans are two chains sharing one client registration (client id, secret) at one provider with a redirect URI and scopes of their own; the provider-side strict parser (independent splitter/decoder) judges every Location against the sending filter's redirect URI and scope set; the Location of the check that completes a login is compared byte for byte with the URL that session's login redirect was issued for (callback URL as first target included); "
              "non-trivial = a login completed; distinct = canonical event trace x configuration",
              {"runs": 30000, "budget_s": 30}, {"runs": 800000, "budget_s": 900}, must={"all": ["logins-completed"]}),
     "C14": P("plans = the union mix: C01's fault-injecting histories, C09's concurrent logout races, C11's refresh histories with lost replies, a third of them with debug logging; every secret "
